@@ -390,7 +390,16 @@ def check_tree(o):
     n, root = o["n"], o["root"]
     E = np.array(o["edges"], dtype=int).reshape(-1, 2)
     par, dep, ch = _fn(o["parent"]), _fn(o["depth"]), _fn(o["children"])
-    for t, label in ((ms.Tree.init_from_edges(E, n, root), "Tree: "), (ms.PointTree.init_from_edges(_pts(n), E, root), "PointTree: ")):
+    # the same tree with edge weights of either sign, chosen so that the weights leaving every vertex with two or more children
+    # CANCEL (+1 ... +1, -(k-1)): an edge is an edge whatever its weight, and a vertex with children is not a leaf
+    W = np.zeros((n, n))
+    for v in range(n):
+        kids = sorted(ch[v])
+        for i, w in enumerate(kids):
+            W[v, w] = (-(len(kids) - 1.0) if i == len(kids) - 1 else 1.0) if len(kids) > 1 else -2.5
+    for t, label in ((ms.Tree.init_from_edges(E, n, root), "Tree: "), (ms.PointTree.init_from_edges(_pts(n), E, root), "PointTree: "),
+                     (ms.Tree(csr_matrix(W), root), "Tree (signed weights that cancel per vertex): "),
+                     (ms.PointTree(_pts(n), W.copy(), root), "PointTree (signed weights that cancel per vertex): ")):
         if t.root_vertex != root:
             bad.append((label + "root wrong", {}, None))
         if not t.is_tree() or t.has_cycles():
